@@ -60,6 +60,10 @@ pub broadcast proof fn prefix_refl(a: Seq<ControlMessage>)
 pub struct Instant { pub t: nat }
 #[derive(Clone, Copy)]
 pub struct Duration { pub d: nat }
+impl Duration {
+    #[verifier::external_body]
+    pub fn is_zero(&self) -> (r: bool) ensures r == (self.d == 0) { unimplemented!() }
+}
 impl vstd::std_specs::ops::AddSpecImpl<Duration> for Instant {
     open spec fn obeys_add_spec() -> bool { true }
     open spec fn add_req(self, rhs: Duration) -> bool { true }
